@@ -44,25 +44,6 @@ Lemma c11_segmentation : forall segs tm,
     (whole tmap msg c11_decode tm (List.concat segs)).
 Proof. intros. apply segmentation_independent. exact c11_decode_nonempty. Qed.
 
-Lemma c11_model_spec c : frames_wf c = true -> c11_model c = c11_spec c.
-Proof.
-  intros W. destruct (frames_wf_forall c W) as [Fw Ec].
-  unfold c11_model, c11_spec.
-  destruct (c11_segmentation (cut_at 0 (k_cuts c) (k_stream c)) []) as (Ho & Hc & Hd & _).
-  rewrite concat_cut_at in Ho, Hc, Hd.
-  unfold show_result. rewrite Ho, Hc, Hd.
-  unfold whole. rewrite <- Ec at 1 2 3.
-  rewrite (frames_exact tmap msg c11_decode c11_decode_nonempty _ [] Fw).
-  destruct (deliver tmap msg c11_decode [] (split_lens (k_msgs c) (k_stream c))) as [[[tm ms] rest] cl].
-  reflexivity.
-Qed.
-
-Lemma C11_oracle_lemma c : C11_holds_on c (c11_model c) = true.
-Proof.
-  unfold C11_holds_on. destruct (frames_wf c) eqn:W; [|reflexivity].
-  rewrite (c11_model_spec c W). apply String.eqb_refl.
-Qed.
-
 (* the collector instance, composed: whatever the segmentation of the sender's well-framed
    messages, the reader delivers exactly the messages decoded one by one up to the first
    undecodable one, ends closed exactly in that case, and leaves the template table in the
@@ -78,4 +59,31 @@ Proof.
   rewrite (frames_exact tmap msg c11_decode c11_decode_nonempty fs tm Fw).
   destruct (deliver tmap msg c11_decode tm fs) as [[[tm' ms] rest] c].
   cbn [r_out r_closed r_dec]. auto.
+Qed.
+
+Lemma other_wf_forall c : other_wf c = true -> Forall wf_frame (k_other c).
+Proof.
+  unfold other_wf. intros H. rewrite forallb_forall in H. apply Forall_forall. intros f Hf.
+  specialize (H f Hf). unfold wf_frame. destruct (frame_len f) as [n|]; [|discriminate].
+  apply Nat.eqb_eq in H. congruence.
+Qed.
+
+Lemma c11_model_spec c : frames_wf c = true -> other_wf c = true -> c11_model c = c11_spec c.
+Proof.
+  intros W W2. destruct (frames_wf_forall c W) as [Fw Ec]. pose proof (other_wf_forall c W2) as Fo.
+  unfold c11_model, c11_spec, show_result.
+  pose proof (c11_tcp (split_lens (k_msgs c) (k_stream c)) (cut_at 0 (k_cuts c) (k_stream c)) [] Fw) as T1.
+  rewrite concat_cut_at, Ec in T1. specialize (T1 eq_refl). cbv zeta in T1.
+  destruct (deliver tmap msg c11_decode [] (split_lens (k_msgs c) (k_stream c))) as [[[tm ms] rest] cl].
+  destruct T1 as (Ho & Hc & Hd). rewrite Ho, Hc, Hd.
+  pose proof (c11_tcp (k_other c) (k_other c) tm Fo eq_refl) as T2. cbv zeta in T2.
+  destruct (deliver tmap msg c11_decode tm (k_other c)) as [[[tm2 ms2] rest2] cl2].
+  destruct T2 as (Ho2 & Hc2 & _). rewrite Ho2, Hc2. reflexivity.
+Qed.
+
+Lemma C11_oracle_lemma c : C11_holds_on c (c11_model c) = true.
+Proof.
+  unfold C11_holds_on. destruct (frames_wf c) eqn:W; [|reflexivity].
+  destruct (other_wf c) eqn:W2; [|reflexivity]. cbn [andb].
+  rewrite (c11_model_spec c W W2). apply String.eqb_refl.
 Qed.
